@@ -143,6 +143,12 @@ func (w *World) Block(n *Node, reqs []*TxReq, crash CrashPoint) (*BlockRecord, e
 		w.Log.Add("t=%v %s block %d LOST (crash after finalize) txs=%d", w.Now, n.Name, rec.Height, len(rec.Txs))
 		return rec, nil
 	}
+	if n.Down { // crashed right after Commit: the block is durable; bring the node back before anyone looks at it
+		w.Log.Add("t=%v %s crash after commit of block %d, restart", w.Now, n.Name, rec.Height)
+		if err := n.Restart(); err != nil {
+			return nil, err
+		}
+	}
 	w.Blocks++
 	w.Txs += len(rec.Txs)
 	w.Log.Add("t=%v %s block %d apphash=%x txs=%d", w.Now, n.Name, rec.Height, rec.AppHash[:6], len(rec.Txs))
